@@ -177,20 +177,14 @@ func (aw *AsyncWorker) doBranchCommit(phaseCtxs *[]phaseTwoContext) {
 func (aw *AsyncWorker) dealWithGroupedContexts(resID string, phaseCtxs []phaseTwoContext) {
 	val, ok := aw.resourceMgr.GetCachedResources().Load(resID)
 	if !ok {
-		for i := range phaseCtxs {
-			aw.rePutBackToQueue.Add(1)
-			aw.commitQueue <- phaseCtxs[i]
-		}
+		aw.rePutBack(phaseCtxs...)
 		return
 	}
 
 	res := val.(*DBResource)
 	conn, err := res.db.Conn(context.Background())
 	if err != nil {
-		for i := range phaseCtxs {
-			aw.rePutBackToQueue.Add(1)
-			aw.commitQueue <- phaseCtxs[i]
-		}
+		aw.rePutBack(phaseCtxs...)
 		return
 	}
 
@@ -198,18 +192,25 @@ func (aw *AsyncWorker) dealWithGroupedContexts(resID string, phaseCtxs []phaseTw
 
 	undoMgr, err := undo.GetUndoLogManager(res.dbType)
 	if err != nil {
-		for i := range phaseCtxs {
-			aw.rePutBackToQueue.Add(1)
-			aw.commitQueue <- phaseCtxs[i]
-		}
+		aw.rePutBack(phaseCtxs...)
 		return
 	}
 
 	for i := range phaseCtxs {
 		phaseCtx := phaseCtxs[i]
 		if err := undoMgr.BatchDeleteUndoLog([]string{phaseCtx.Xid}, []int64{phaseCtx.BranchID}, conn); err != nil {
-			aw.rePutBackToQueue.Add(1)
-			aw.commitQueue <- phaseCtx
+			aw.rePutBack(phaseCtx)
 		}
 	}
+}
+
+// rePutBack hands contexts that could not be processed back to the queue. It must not block the
+// commit worker: the run loop, the only reader of the queue, may be waiting for this very worker.
+func (aw *AsyncWorker) rePutBack(phaseCtxs ...phaseTwoContext) {
+	aw.rePutBackToQueue.Add(float64(len(phaseCtxs)))
+	go func() {
+		for i := range phaseCtxs {
+			aw.commitQueue <- phaseCtxs[i]
+		}
+	}()
 }
